@@ -162,6 +162,9 @@ func c15mRules() []c15mRule {
 		{"other-resource", c15mJ{"apiVersion": "apps.example.com/v1", "resource": "widgets"}},
 		{"other-resource-names", c15mJ{"apiVersion": "apps.example.com/v1", "resource": "widgets", "names": c15mA{"a"}}},
 		{"unknown-fields", pods(c15mJ{"Namespace": "ns2", "extra": c15mJ{"x": int64(1)}, "names": c15mA{"a"}})},
+		// a nil rule: GetRelatedObjects refuses it and findRelatedParents skips it (D22 repaired), so the two
+		// functions are no longer reached with nil; called directly they still dereference it. The triples stay
+		// in the stream: the check confirms the panic (as the model says) and reports SKIP "precondition violated".
 		{"null-rule", nil},
 		{"wrong-type-names", pods(c15mJ{"names": "a"})},
 		{"wrong-type-namespace", pods(c15mJ{"namespace": int64(5)})},
